@@ -283,13 +283,17 @@ func (w *zzWorld) check(p string) {
 
 // only: every request the backend saw while serving key carries a key derived from it; every
 // data entry written has the full chunk size, every metadata entry 40 bytes (C16 composition).
-func (w *zzWorld) only(p string, key []byte, from int) {
-	_, full := chunkSize(len(key))
+func (w *zzWorld) only(p string, keys [][]byte, from int) {
+	_, full := chunkSize(len(keys[0]))
 	for _, rq := range w.mc.Log[from:] {
 		if rq.Op == 0x0a { // no-op terminator
 			continue
 		}
-		rt.Assert(p+"-only-derived-entries-touched", zzDerived(rq.Key, key))
+		der := false
+		for _, key := range keys {
+			der = der || zzDerived(rq.Key, key)
+		}
+		rt.Assert(p+"-only-derived-entries-touched", der)
 		if rq.Op == 0x01 || rq.Op == 0x02 || rq.Op == 0x03 {
 			if len(rq.Key) >= 5 && rq.Key[len(rq.Key)-5:] == "-meta" {
 				rt.Assert("c16-metadata-entry-size", rq.DataLen == metadataSize)
@@ -358,6 +362,9 @@ func ZZChunkedStep() {
 	from := len(w.mc.Log)
 	ref := w.ref
 	p := "c04"
+	if rt.Param("c05", 0) == 1 {
+		p = "c05" // the multi-key get job of C05: every value returned is one that was written whole
+	}
 	switch kind {
 	case zSet, zAdd, zReplace, zAppend, zPrepend:
 		L := lens[rt.Choice("len", len(lens))]
@@ -402,6 +409,53 @@ func ZZChunkedStep() {
 			ref.Touch(ki, ttl, w.now)
 		}
 	case zGet:
+		if nkeys > 1 {
+			// a get of every key in one request; the responses are compared only after the whole
+			// batch has completed (a response must not be disturbed by the reads that follow it)
+			var keys [][]byte
+			var opaques []uint32
+			var quiets []bool
+			for j := 0; j < nkeys; j++ {
+				kj := (ki + j) % nkeys
+				keys = append(keys, zzWithCap(w.keys[kj], 8))
+				opaques = append(opaques, opaque+uint32(j))
+				quiets = append(quiets, j%2 == 1)
+			}
+			out, errs := w.h.Get(common.GetRequest{Keys: keys, Opaques: opaques, Quiet: quiets})
+			var all []common.GetResponse
+			var gerr error
+			for out != nil || errs != nil {
+				select {
+				case r, ok := <-out:
+					if !ok {
+						out = nil
+						continue
+					}
+					all = append(all, r)
+				case e, ok := <-errs:
+					if !ok {
+						errs = nil
+						continue
+					}
+					gerr = e
+				}
+			}
+			rt.Assert(p+"-get-no-error", gerr == nil)
+			rt.Assert(p+"-get-one-response-per-key", len(all) == nkeys)
+			if len(all) == nkeys {
+				for j, r := range all {
+					kj := (ki + j) % nkeys
+					hit, v, fl := ref.Get(kj)
+					rt.Assert(p+"-get-hit-iff-present", r.Miss == !hit)
+					if hit && !r.Miss {
+						rt.Assert(p+"-get-value-as-map", len(r.Data) == len(v) && rt.BytesEq(r.Data, v))
+						rt.Assert(p+"-get-flags-as-map", r.Flags == fl)
+					}
+					rt.Assert(p+"-get-attribution", r.Opaque == opaques[j] && r.Quiet == quiets[j] && string(r.Key) == string(w.keys[kj]))
+				}
+			}
+			break
+		}
 		res, n, err := zzGetOne(w.h, key, opaque)
 		hit, v, fl := ref.Get(ki)
 		rt.Assert(p+"-get-no-error", err == nil)
@@ -415,7 +469,11 @@ func ZZChunkedStep() {
 	}
 	rt.Reach("step-done")
 	rt.Assert(p+"-client-key-not-modified", len(key) == len(keyCopy) && rt.BytesEq(key, keyCopy))
-	w.only(p, w.keys[ki], from)
+	if kind == zGet && nkeys > 1 {
+		w.only(p, w.keys, from)
+	} else {
+		w.only(p, w.keys[ki:ki+1], from)
+	}
 	w.check(p)
 }
 
@@ -530,4 +588,98 @@ func ZZKeyInjective() {
 	rt.Reach("derived")
 	rt.Assert("c04-derived-keys-of-distinct-client-keys-differ", len(d1) != len(d2) || rt.Not(rt.BytesEq(d1, d2)))
 	rt.Assert("c04-derived-key-extends-client-key", len(d1) > l1 && rt.BytesEq(d1[:l1], k1))
+}
+
+// ZZChunkedMixed (C05): two sets W1 and W2 of the same key (values, flags, tokens, chunk
+// counts independent) have been interleaved at backend-request granularity, or a reader runs
+// while they are in progress: each backend entry (metadata, chunk i) holds W1's version, W2's
+// version or nothing. get / get-and-touch / append return W1's value with W1's flags, W2's
+// with W2's, or a miss -- never a mixture.
+func ZZChunkedMixed() {
+	kl := rt.Param("keylen", 5)
+	w := zzNewWorld(kl, 0, 0)
+	data, _ := chunkSize(kl)
+	p := int(data)
+	key := zzKey(kl)
+	w.keys = [][]byte{key}
+	maxn := rt.Param("maxchunks", 2)
+	type wr struct {
+		n    int
+		v    []byte
+		fl   uint32
+		tok  []byte
+		mc   *model.MC
+	}
+	mk := func(name string) *wr {
+		x := &wr{n: 1 + rt.Choice(name+".chunks", maxn)}
+		short := rt.Choice(name+".short", 3) // last chunk: full, one byte short, one byte long
+		L := x.n * p
+		switch short {
+		case 1:
+			L--
+		case 2:
+			L = (x.n-1)*p + 1
+		}
+		x.v = zzValue(name+".v", L, p)
+		x.fl = rt.U32(name + ".flags")
+		x.tok = rt.Bytes(name+".tok", tokenSize)
+		x.mc = model.NewMC(name, w.now)
+		zzStore(x.mc, key, x.v, x.fl, x.tok, 0)
+		return x
+	}
+	a, b := mk("w1"), mk("w2")
+	rt.Assume(rt.Not(rt.BytesEq(a.tok, b.tok))) // A2
+	pick := func(k string, label string) {
+		ia, ib := a.mc.Items[k], b.mc.Items[k]
+		opts := []*model.Item{nil}
+		if ia != nil {
+			opts = append(opts, ia)
+		}
+		if ib != nil {
+			opts = append(opts, ib)
+		}
+		it := opts[rt.Choice("ver."+label, len(opts))]
+		if it != nil {
+			w.mc.Put(k, true, it.Data, it.Flags, 0)
+		}
+	}
+	pick(string(key)+"-meta", "meta")
+	nmax := a.n
+	if b.n > nmax {
+		nmax = b.n
+	}
+	for i := 0; i < nmax; i++ {
+		pick(string(key)+"-"+zzItoa(i), zzItoa(i))
+	}
+	is := func(d []byte, f uint32, x *wr) bool {
+		return len(d) == len(x.v) && rt.FixBool(rt.And(rt.BytesEq(d, x.v), f == x.fl))
+	}
+	switch rt.Choice("reader", 3) {
+	case 0:
+		res, cnt, err := zzGetOne(w.h, key, 7)
+		rt.Reach("read-done")
+		rt.Assert("c05-get-terminates-cleanly", err == nil && cnt == 1)
+		rt.Assert("c05-get-returns-one-writers-value-or-miss", res.Miss || is(res.Data, res.Flags, a) || is(res.Data, res.Flags, b))
+	case 1:
+		res, err := w.h.GAT(common.GATRequest{Key: key, Exptime: rt.U32("ttl")})
+		rt.Reach("read-done")
+		rt.Assert("c05-gat-terminates-cleanly", err == nil)
+		rt.Assert("c05-gat-returns-one-writers-value-or-miss", res.Miss || is(res.Data, res.Flags, a) || is(res.Data, res.Flags, b))
+	case 2:
+		suffix := rt.Bytes("suffix", 1)
+		err := w.h.Append(common.SetRequest{Key: key, Data: suffix})
+		rt.Reach("read-done")
+		if err == nil {
+			d := zzDecode(w.mc, key)
+			okv := func(x *wr) bool {
+				want := append(append([]byte(nil), x.v...), suffix...)
+				return len(d.data) == len(want) && rt.FixBool(rt.And(rt.BytesEq(d.data, want), d.flags == x.fl))
+			}
+			rt.Assert("c05-append-built-on-one-writers-value", d.wellFormed && d.present && (okv(a) || okv(b)))
+		} else {
+			rt.Assert("c05-append-fails-as-miss", err == common.ErrKeyNotFound)
+		}
+	}
+	x, y := w.mc.Pending()
+	rt.Assert("c05-backend-connection-drained", w.mc.Starved == 0 && x == 0 && y == 0)
 }
